@@ -24,8 +24,8 @@ func init() {
 		Race:  true,
 		Level: "exploration",
 		Rule: "sequential cases: random history A over schema K (indexes, fks, links, child stores) -> whole-file dump D_A -> snapshot by each route (Snapshot(path), SnapshotInTx inside a read transaction, StreamToWriter) -> further committed transactions -> restore (RestoreSnapshot / RestoreFromReader) -> " +
-			"dump must equal D_A except meta/snapshotId and meta/resetTimeline (exactly equal for the unmarked StreamToWriter route); GetSnapshotId equals the id Snapshot returned; every restore listener fired exactly once; the next GetTimelineId(default) calls the id function exactly once and returns its value, " +
-			"the following one returns the same value without calling it; the structural monitor is clean against the model of time A and the database accepts further transactions. " +
+			"dump must equal D_A except meta/snapshotId and meta/resetTimeline (exactly equal for the unmarked StreamToWriter route); GetSnapshotId equals the id Snapshot returned; every restore listener fired exactly once; the next GetTimelineId (default or initIfEmpty mode; the database started with a timeline id, without one, or was only asked in default mode) calls the id function exactly once and returns its value, " +
+			"the following two return the same value without calling it; the structural monitor is clean against the model of time A and the database accepts further transactions. " +
 			"concurrent cases (race detector): a mutator takes snapshots and restores them (hook sleeps of 0-3 ms between the persist / close / rename / reopen steps), 2 writers rewrite the whole database into stamped state(g), 6 readers verify in every read transaction that the entire content equals state(g) of one generation; " +
 			"all clients log call/return, and porcupine checks the history against a register model (write(g) sets, restore(g_s) sets to the snapshot's generation, read returns the current one). non-trivial = distinct (route, restore call, history digest) and reads overlapping a restore",
 		Assumptions: []string{"interleavings are sampled; Snapshot / RootBucket concurrently with a restore are not driven (recursive read lock behind a waiting writer can deadlock: liveness, outside the statement)",
@@ -50,7 +50,7 @@ func init() {
 		},
 		Promises: func(core.Tier) map[string][]string {
 			return map[string][]string{"route": {"Snapshot+RestoreSnapshot", "Snapshot+RestoreFromReader", "SnapshotInTx+RestoreSnapshot", "SnapshotInTx+RestoreFromReader", "StreamToWriter+RestoreSnapshot", "StreamToWriter+RestoreFromReader"},
-				"porcupine": {"ok"}}
+				"porcupine": {"ok"}, "timeline_after_restore": {"round 0, start initialised", "round 0, start never requested", "round 0, start default on empty", "round 1, start never requested"}}
 		},
 		MinCounters: func(core.Tier) map[string]int64 {
 			return map[string]int64{"restores_sequential": 30, "reads_overlapping_a_restore": 20, "restores_concurrent": 30}
@@ -60,6 +60,10 @@ func init() {
 }
 
 func metaIgnore(e dump.Entry) bool {
+	// the two markers, and the meta bucket that holds them (the snapshot operation creates it when the database had none)
+	if e.Path == "" && e.Bucket && string(e.Key) == boltz.Metadata {
+		return true
+	}
 	return e.Path == `/"meta"` && (string(e.Key) == boltz.SnapshotId || string(e.Key) == boltz.ResetTimeline)
 }
 
@@ -82,11 +86,20 @@ func c17Sequential(c *core.Ctx, idx int) {
 	// timeline id before anything: initIfEmpty creates one, a second call returns it
 	idCalls := 0
 	idF := func() (string, error) { idCalls++; return fmt.Sprintf("timeline-%d-%d", idx, idCalls), nil }
-	t1, err := db.GetTimelineId(boltz.TimelineModeInitIfEmpty, idF)
-	t1b, _ := db.GetTimelineId(boltz.TimelineModeDefault, idF)
-	c.Eval()
-	if err != nil || idCalls != 1 || t1 != "timeline-"+fmt.Sprint(idx)+"-1" || t1b != t1 {
-		c.Violationf("C17 timeline id initialisation", nil, "first=%q second=%q idF calls=%d err=%v", t1, t1b, idCalls, err)
+	// three starting points: a timeline id exists before the first snapshot, none was ever requested, or it was
+	// only asked for in default mode (which leaves the database without one)
+	tlStart := []string{"initialised", "never requested", "default on empty"}[(idx/6)%3]
+	c.Cover("timeline_start", tlStart)
+	switch tlStart {
+	case "initialised":
+		t1, err := db.GetTimelineId(boltz.TimelineModeInitIfEmpty, idF)
+		t1b, _ := db.GetTimelineId(boltz.TimelineModeDefault, idF)
+		c.Eval()
+		if err != nil || idCalls != 1 || t1 != "timeline-"+fmt.Sprint(idx)+"-1" || t1b != t1 {
+			c.Violationf("C17 timeline id initialisation", nil, "first=%q second=%q idF calls=%d err=%v", t1, t1b, idCalls, err)
+		}
+	case "default on empty":
+		_, _ = db.GetTimelineId(boltz.TimelineModeDefault, idF)
 	}
 	e.W = map[string]int{"create": 10, "update": 5, "patch": 4, "delete": 3, "addlinks": 4, "setlinks": 2, "rcinc": 3}
 	for round := 0; round < 2; round++ {
@@ -188,12 +201,18 @@ func c17Sequential(c *core.Ctx, idx int) {
 		}
 		if route != "StreamToWriter" {
 			calls0 := idCalls
-			a, err1 := db.GetTimelineId(boltz.TimelineModeDefault, idF)
-			b, err2 := db.GetTimelineId(boltz.TimelineModeDefault, idF)
+			// the request after a restore and the ones following it, in either non-forcing mode
+			modes := []boltz.TimelineMode{boltz.TimelineModeDefault, boltz.TimelineModeInitIfEmpty}
+			m1, m2 := modes[(idx/2+round)%2], modes[(idx/4)%2]
+			a, err1 := db.GetTimelineId(m1, idF)
+			b, err2 := db.GetTimelineId(m2, idF)
+			b2, err3 := db.GetTimelineId(boltz.TimelineModeDefault, idF)
 			c.Eval()
-			if err1 != nil || err2 != nil || idCalls != calls0+1 || a != fmt.Sprintf("timeline-%d-%d", idx, idCalls) || b != a {
-				c.Violationf("C17 timeline id after restore", info, "first=%q second=%q, id function called %d times (expected exactly once, returning a fresh id)", a, b, idCalls-calls0)
+			info["timeline_start"] = tlStart
+			if err1 != nil || err2 != nil || err3 != nil || idCalls != calls0+1 || a != fmt.Sprintf("timeline-%d-%d", idx, calls0+1) || b != a || b2 != a {
+				c.Violationf("C17 timeline id after restore", info, "first=%q second=%q third=%q, id function called %d times (expected exactly once, returning a fresh id)", a, b, b2, idCalls-calls0)
 			}
+			c.Cover("timeline_after_restore", fmt.Sprintf("round %d, start %s", round, tlStart))
 		}
 		c.Nontrivial(route, restoreCall, dA.Hash())
 		if c.WantSample() {
